@@ -4,13 +4,14 @@ package main
 // renderings of a token vector for each entry point. Nothing here decides a verdict.
 
 import (
+	"net/textproto"
 	"strconv"
 	"strings"
 )
 
 // Tok is an abstract JSON-like value supplied for one field.
 type Tok struct {
-	T string   `json:"t"`           // absent | null | num | str | bool | list | obj
+	T string   `json:"t"`           // absent | null | num | str | bool | list | obj | alt (E[0] under the OTHER placement of a dotted key, see keys.go)
 	V string   `json:"v,omitempty"` // num: literal; str: content; bool: "true"/"false"
 	E []Tok    `json:"e,omitempty"` // list elements / obj values
 	K []string `json:"k,omitempty"` // obj keys (parallel to E)
@@ -24,6 +25,19 @@ func tB(b bool) Tok     { return Tok{T: "bool", V: strconv.FormatBool(b)} }
 func tL(e ...Tok) Tok   { return Tok{T: "list", E: append([]Tok{}, e...)} }
 func tO1(k string, v Tok) Tok { return Tok{T: "obj", K: []string{k}, E: []Tok{v}} }
 func tO0() Tok          { return Tok{T: "obj"} }
+
+// tAlt: the value t delivered under the placement a dotted key does NOT address for the entry —
+// json / key / conf: one flat member named "p.q" instead of the path p → q; form / path / header
+// (direct unmarshaler API only): a nested map p → q instead of the flat parameter "p.q".
+func tAlt(t Tok) Tok { return Tok{T: "alt", E: []Tok{t}} }
+
+// placed: the value of the token and whether it sits under the other placement.
+func (t Tok) placed() (Tok, bool) {
+	if t.T == "alt" {
+		return t.E[0], true
+	}
+	return t, false
+}
 
 func (t Tok) get(k string) (Tok, bool) {
 	for i, kk := range t.K {
@@ -56,6 +70,8 @@ func (t Tok) json() string {
 			p[i] = strconv.Quote(t.K[i]) + ":" + e.json()
 		}
 		return "{" + strings.Join(p, ",") + "}"
+	case "alt":
+		return t.E[0].json()
 	}
 	return "<absent>"
 }
@@ -81,6 +97,8 @@ const (
 	EHDR  = "header" // NewUnmarshaler("header", WithStringValues, WithCanonicalKeyFunc(CanonicalMIMEHeaderKey))
 	ECONF = "conf"   // conf.LoadFromJsonBytes
 	EHTTP = "httpx"  // httpx.Parse on a generated *http.Request, every field with its own source
+	EYAML = "yaml"   // mapping.UnmarshalYamlBytes on the JSON rendering (JSON is YAML flow style); keys.go groups only
+	ETOML = "toml"   // mapping.UnmarshalTomlBytes on a TOML rendering (inline tables); no null in TOML; keys.go groups only
 )
 
 var directEntries = []string{EJSON, EKEY, EFORM, EPATH, EHDR, ECONF}
@@ -88,7 +106,7 @@ var directEntries = []string{EJSON, EKEY, EFORM, EPATH, EHDR, ECONF}
 // delivery class of a field's value: json | native | form | path | header
 func delivery(entry string, f Field) string {
 	switch entry {
-	case EJSON, ECONF:
+	case EJSON, ECONF, EYAML, ETOML:
 		return "json"
 	case EKEY:
 		return "native"
@@ -354,15 +372,156 @@ func reducedFamily(f Field, dc string, httpReq bool) []Tok {
 // ---------------------------------------------------------------------------------------------
 // renderings
 
+// docNode: a JSON object under construction (members in insertion order); a dotted key is a path.
+type docNode struct {
+	keys []string
+	kids map[string]*docNode
+	leaf string // rendered value, when kids == nil
+}
+
+func (n *docNode) put(path []string, leaf string) {
+	if n.kids == nil {
+		n.kids = map[string]*docNode{}
+	}
+	k, ok := n.kids[path[0]]
+	if !ok {
+		k = &docNode{}
+		n.kids[path[0]] = k
+		n.keys = append(n.keys, path[0])
+	}
+	if len(path) == 1 {
+		k.leaf, k.kids, k.keys = leaf, nil, nil
+		return
+	}
+	k.put(path[1:], leaf)
+}
+
+func (n *docNode) render(b *strings.Builder, kv, open, shut string) {
+	if n.kids == nil && n.keys == nil && n.leaf != "" {
+		b.WriteString(n.leaf)
+		return
+	}
+	b.WriteString(open)
+	for i, k := range n.keys {
+		if i > 0 {
+			b.WriteByte(',')
+		}
+		b.WriteString(strconv.Quote(k) + kv)
+		n.kids[k].render(b, kv, open, shut)
+	}
+	b.WriteString(shut)
+}
+
+// docPath: where field i's token goes in a document: along the path of its (dotted) key, or — for
+// the other placement — under one flat member named by the whole key text.
+func docPath(fs []Field, i int, alt bool) []string {
+	k := keyName(fs, i)
+	if alt || !strings.Contains(k, ".") {
+		return []string{k}
+	}
+	return strings.Split(k, ".")
+}
+
 func renderJSONDoc(fs []Field, toks []Tok, only string) string {
-	var p []string
+	plain := true
+	for i := range fs {
+		plain = plain && !fs[i].dotted()
+	}
+	if plain { // one member per supplied field
+		var p []string
+		for i, t := range toks {
+			if t.T == "absent" || (only != "" && fs[i].Src != only) {
+				continue
+			}
+			p = append(p, strconv.Quote(keyName(fs, i))+":"+t.json())
+		}
+		return "{" + strings.Join(p, ",") + "}"
+	}
+	root := &docNode{}
 	for i, t := range toks {
 		if t.T == "absent" || (only != "" && fs[i].Src != only) {
 			continue
 		}
-		p = append(p, strconv.Quote(keyOf(i))+":"+t.json())
+		v, alt := t.placed()
+		root.put(docPath(fs, i, alt), v.json())
 	}
-	return "{" + strings.Join(p, ",") + "}"
+	var b strings.Builder
+	if len(root.keys) == 0 {
+		return "{}"
+	}
+	root.render(&b, ":", "{", "}")
+	return b.String()
+}
+
+// toml renders a token as a TOML value (inline tables and arrays); null has no rendering.
+func (t Tok) toml() string {
+	switch t.T {
+	case "num", "bool":
+		return t.V
+	case "str":
+		return strconv.Quote(t.V)
+	case "list":
+		p := make([]string, len(t.E))
+		for i, e := range t.E {
+			p[i] = e.toml()
+		}
+		return "[" + strings.Join(p, ", ") + "]"
+	case "obj":
+		p := make([]string, len(t.E))
+		for i, e := range t.E {
+			p[i] = strconv.Quote(t.K[i]) + " = " + e.toml()
+		}
+		return "{" + strings.Join(p, ", ") + "}"
+	case "alt":
+		return t.E[0].toml()
+	}
+	return "<none>"
+}
+
+// renderTOMLDoc: one `key = value` line per top-level member; a dotted key becomes nested inline
+// tables, the other placement one quoted key "p.q".
+func renderTOMLDoc(fs []Field, toks []Tok) string {
+	root := &docNode{}
+	for i, t := range toks {
+		if t.T == "absent" {
+			continue
+		}
+		v, alt := t.placed()
+		root.put(docPath(fs, i, alt), v.toml())
+	}
+	var b strings.Builder
+	for _, k := range root.keys {
+		b.WriteString(strconv.Quote(k) + " = ")
+		root.kids[k].render(&b, " = ", "{", "}")
+		b.WriteByte('\n')
+	}
+	return b.String()
+}
+
+// putNested stores v in m along path, creating the maps on the way.
+func putNested(m map[string]any, path []string, v any) {
+	for len(path) > 1 {
+		n, ok := m[path[0]].(map[string]any)
+		if !ok {
+			n = map[string]any{}
+			m[path[0]] = n
+		}
+		m, path = n, path[1:]
+	}
+	m[path[0]] = v
+}
+
+// nativeMap: the map a caller of UnmarshalKey passes (dotted keys address nested maps).
+func nativeMap(fs []Field, toks []Tok) map[string]any {
+	m := make(map[string]any, len(toks))
+	for i, t := range toks {
+		if t.T == "absent" {
+			continue
+		}
+		v, alt := t.placed()
+		putNested(m, docPath(fs, i, alt), native(v, fs[i].Kind))
+	}
+	return m
 }
 
 // native renders a token as the Go value a caller of UnmarshalKey would put into the map for a
@@ -466,25 +625,30 @@ func strList(t Tok) []string {
 
 // renderStrMap renders the map handed to the form / path / header unmarshalers, shaped like the
 // maps httpx builds (form: []string per key; path: string; header: string or []string).
-func renderStrMap(entry string, toks []Tok) map[string]any {
+func renderStrMap(entry string, fs []Field, toks []Tok) map[string]any {
 	m := map[string]any{}
 	for i, t := range toks {
-		k := keyOf(i)
+		k := keyName(fs, i)
 		if entry == EHDR {
-			k = strings.ToUpper(k) // textproto.CanonicalMIMEHeaderKey of a one-letter key
+			k = textproto.CanonicalMIMEHeaderKey(k) // what net/http stores (the HTTP standard, not go-zero code)
+		}
+		path := []string{k} // the flat parameter name, also for a dotted key: what a request delivers
+		t, alt := t.placed()
+		if alt {
+			path = strings.Split(k, ".") // the other placement: a nested map (Unmarshaler API only)
 		}
 		switch t.T {
 		case "absent":
 		case "null":
-			m[k] = nil
+			putNested(m, path, nil)
 		case "str":
 			if entry == EFORM {
-				m[k] = []string{t.V}
+				putNested(m, path, []string{t.V})
 			} else {
-				m[k] = t.V
+				putNested(m, path, t.V)
 			}
 		case "list":
-			m[k] = strList(t)
+			putNested(m, path, strList(t))
 		}
 	}
 	return m
